@@ -145,8 +145,8 @@ func CompareValues(left r.Element, right r.Element, verb uint8) (bool, error) {
 			if len(vl.value) != len(vr.value) {
 				return false, nil
 			}
-			// cmp each item
-			for idx := range vl.value {
+			// cmp each item, in the key order of the left operand (see compareLogicXEQ)
+			for _, idx := range vl.keyOrder {
 				// ensure the key exists on vr
 				vrr, ok := vr.value[idx]
 				if !ok {
